@@ -16,4 +16,4 @@ ASSUMPTIONS = ["os.replace is atomic on one file system", "python is not run wit
 
 
 def run(project, rep):
-    K.k_rules(project, rep)
+    rep.run(K.k_rules, project, rep)
